@@ -6,6 +6,7 @@ import (
 	"errors"
 	"fmt"
 	"io"
+	"os"
 	"time"
 )
 
@@ -274,5 +275,56 @@ func vh_C09_L9_writer_about_to_wait_is_released_by_teardown() {
 	vassert(ctx.done, "the teardown happened while the writer was at the gate")
 	vassert(serr != nil, "the write is rejected")
 	vassert(a.pendingQueue.size() <= pend, "and queues nothing")
+	vcover("end")
+}
+
+// C09.L10: a teardown error is final whatever kind of error it is. The read loop ended with
+// a timeout-kind error (the forced read deadline of Abort, or a transport reporting a
+// timeout): streams carry it, and setting or clearing a read deadline afterwards does not
+// wipe it (only the stream's own deadline error may be cleared that way).
+func vh_C09_L10_timeout_kind_teardown_error_is_final() {
+	a, _ := vNewAssoc()
+	s, err := a.OpenStream(1, PayloadTypeWebRTCBinary)
+	vassert(err == nil, "open stream")
+	cause := fmt.Errorf("read udp: i/o timeout: %w", os.ErrDeadlineExceeded)
+	a.lock.Lock()
+	a.unregisterStream(s, cause)
+	a.lock.Unlock()
+	if vPick(2) == 1 {
+		_ = s.SetReadDeadline(time.Now().Add(time.Hour))
+		vSpawned = nil
+	} else {
+		_ = s.SetReadDeadline(time.Time{})
+	}
+	vassert(s.readErr == cause, "the teardown error survives a later SetReadDeadline")
+	vMustNotBlock("a read after teardown returns")
+	_, _, rerr := s.ReadSCTP(make([]byte, 4))
+	vMayBlock()
+	vassert(rerr == cause, "and is what readers get")
+	vcover("end")
+}
+
+// C09.L11: every teardown releases every parked writer. The channel that blocked writers
+// wait on is closed by the read loop's exit whatever the gate's bookkeeping says at that
+// moment (one writer may just have been handed the token, writePending already cleared,
+// while others are still parked on the same channel).
+func vh_C09_L11_teardown_closes_the_writers_channel() {
+	a, conn := vNewAssocOpts(vAssocOpts{blockWrite: true})
+	ch := a.writeNotify
+	a.lock.Lock()
+	a.writePending = nondetBool()
+	a.lock.Unlock()
+	conn.failReads = true
+	if vPick(2) == 1 {
+		_ = a.close()
+	}
+	a.readLoop()
+	released := false
+	select {
+	case <-ch:
+		released = true
+	default:
+	}
+	vassert(released, "writers parked on the gate's channel are released by the teardown")
 	vcover("end")
 }
